@@ -1,5 +1,6 @@
 // PPolyND<DIM,ORDER> behind vf::IPPoly.  Header so that the spline adapter can wrap trajectory copies as well.
 #pragma once
+#include <cstdlib>
 #include "../common/eigen_assert_hook.hpp"
 #include "SplineTrajectory.hpp"
 #include "../common/iface.hpp"
@@ -68,6 +69,15 @@ struct PPolyAdapter final : vf::IPPoly
     int dim() const override { return DIM; }
     int fixedOrder() const override { return ORD == Eigen::Dynamic ? -1 : ORD; }
     void update(const std::vector<double> &bp, const MatrixXd &c, int nc) override { pp.update(bp, toMat(c), nc); }
+    void updateAliased(int which, const std::vector<double> &bp, const MatrixXd &c, int nc) override
+    {
+        if (which == 0) // keep the knots, new coefficients
+            pp.update(pp.getBreakpoints(), toMat(c), nc);
+        else if (which == 1) // re-time, keep the coefficients
+            pp.update(bp, pp.getCoefficients(), nc);
+        else
+            pp.update(pp.getBreakpoints(), pp.getCoefficients(), nc);
+    }
     bool isInitialized() const override { return pp.isInitialized(); }
     int numSegments() const override { return pp.getNumSegments(); }
     int numCoeffs() const override { return pp.getNumCoeffs(); }
@@ -91,9 +101,30 @@ struct PPolyAdapter final : vf::IPPoly
             return fromVec(pp.evaluate(t, hint));
         return fromVec(pp.evaluate(t, hint, static_cast<Deriv>(k)));
     }
-    MatrixXd evalBatch(const std::vector<double> &t, int k) const override { return fromVecs(pp.evaluate(t, k)); }
+    // A long-running program's heap is not made of fresh zero pages: blocks of the size the result will need are filled with
+    // a recognisable non-zero pattern and released just before the call, so that a result element the library allocates
+    // but never writes shows up as that pattern instead of an accidental zero.
+    static void dirtyHeap(size_t n)
+    {
+        for (size_t extra : {size_t(0), size_t(2), size_t(4)})
+        {
+            double *junk = static_cast<double *>(std::malloc((n * DIM + extra) * sizeof(double)));
+            if (!junk)
+                continue;
+            for (size_t i = 0; i < n * DIM + extra; ++i)
+                junk[i] = -7.771e300;
+            asm volatile("" : : "r"(junk) : "memory");
+            std::free(junk);
+        }
+    }
+    MatrixXd evalBatch(const std::vector<double> &t, int k) const override
+    {
+        dirtyHeap(t.size());
+        return fromVecs(pp.evaluate(t, k));
+    }
     MatrixXd evalBatchEnum(const std::vector<double> &t, int k) const override
     {
+        dirtyHeap(t.size());
         if (k < 0)
             return fromVecs(pp.evaluate(t));
         return fromVecs(pp.evaluate(t, static_cast<Deriv>(k)));
